@@ -481,6 +481,26 @@ func init() {
 		return strEq(la, lb)
 	}
 
+	// bytes.EqualFold: ASCII case folding byte by byte (bytes >= 0x80 must be
+	// equal: an under-approximation of Unicode folding, recorded as a note)
+	intrinsics["bytes.EqualFold"] = func(fr *frame, args []value) value {
+		a, b := bytesOf(args[0]), bytesOf(args[1])
+		if len(a) != len(b) {
+			fr.r.note("bytes.EqualFold on slices of different length treated as unequal (ASCII model)")
+			return tFalse
+		}
+		fold := func(x *Term) *Term {
+			isUp := mkAnd(bvCmp("bvuge", x, mkBV(8, 'A')), bvCmp("bvule", x, mkBV(8, 'Z')))
+			return mkIte(isUp, bvBin("bvadd", x, mkBV(8, 32)), x)
+		}
+		res := tTrue
+		for i := range a {
+			res = mkAnd(res, mkEq(fold(a[i]), fold(b[i])))
+		}
+		fr.r.note("bytes.EqualFold modelled with ASCII case folding")
+		return res
+	}
+
 	// strings.Builder (uses unsafe)
 	builderBuf := func(args []value) *value {
 		p := args[0].(*value)
